@@ -128,6 +128,90 @@ def nested_failures_flat_view(ctx, n):
                      family='nested-failures')
 
 
+def propagate_correspondence(ctx, n):
+    """Lib.propagate_pure (the function the theorems of ScopeExcProps.v are about) against the real
+    `Scope._propagate_exceptions` / `_collect_exceptions`: random lists of recorded child failures (ordinary, privileged,
+    suppressed kinds, in any order) and every kind of exception leaving the body (none, ordinary, privileged, the scope's own
+    cancel signal, somebody else's signal) are given to a real Scope object and to the Coq function"""
+    import usim
+    from usim._primitives.context import Scope, CancelScope
+    from harness.check import parse_nat_list
+    rng = ctx.rng
+
+    class U0(Exception):
+        pass
+
+    class U1(U0):
+        pass
+    # (python factory, Coq term of the model's [exn]) - serial numbers give identity
+    def mk(kind, i):
+        if kind == 'u0':
+            return U0(i), '(EUser 0 %d)' % i
+        if kind == 'u1':
+            return U1(i), '(EUser 1 %d)' % i
+        if kind == 'assert':
+            return AssertionError(i), '(EUser 3 %d)' % i
+        if kind == 'kbd':
+            return KeyboardInterrupt(i), '(EUser 4 %d)' % i
+        if kind == 'cancelled':
+            return usim.TaskCancelled(None, i), '(ETaskCancelled 0 (%d)%%Z)' % i
+        if kind == 'closed':
+            return usim.TaskClosed(i), '(ETaskClosed %d)' % i
+        return GeneratorExit(), 'EGenExit'
+    cases = []
+    for k in range(n):
+        scope = Scope()
+        fails, fterms = [], []
+        for i in range(rng.randint(0, 5)):
+            e, t = mk(rng.choice(['u0', 'u0', 'u1', 'assert', 'kbd', 'cancelled', 'closed', 'genexit']), i)
+            fails.append(e)
+            fterms.append(t)
+        scope._child_failures = list(fails)
+        body = rng.choice(['none', 'u0', 'assert', 'kbd', 'own', 'foreign-signal', 'genexit'])
+        if body == 'none':
+            exc, eterm, own = None, 'None', 'false'
+        elif body == 'own':
+            exc, eterm, own = scope._cancel_self, '(Some (ESig 7))', 'true'
+        elif body == 'foreign-signal':
+            exc, eterm, own = CancelScope(Scope(), 'other'), '(Some (ESig 8))', 'false'
+        else:
+            exc, t = mk(body, 90)
+            eterm, own = '(Some %s)' % t, 'false'
+        try:
+            r = scope._propagate_exceptions(type(exc) if exc is not None else None, exc)
+            obs = 'PReraise' if r else 'PSwallow'
+        except usim.Concurrent as c:
+            obs = '(PRaise (EConcurrent [%s]))' % '; '.join(fterms[[id(x) for x in fails].index(id(ch))] for ch in c.children)
+        except BaseException as e:   # noqa
+            ids = [id(x) for x in fails]
+            obs = '(PRaise %s)' % fterms[ids.index(id(e))] if id(e) in ids else '(PRaise (EUser 99 0))'
+        cases.append(('[%s]' % '; '.join(fterms), own, eterm, obs, dict(failures=[repr(x) for x in fails], body=body)))
+    text = ['From Coq Require Import ZArith List Arith Bool.', 'From Usim Require Import XTime Tables Kernel Machine Lib.',
+            'Import ListNotations.',
+            'Fixpoint exn_eqb (a b : exn) {struct a} : bool :=',
+            '  match a, b with',
+            '  | EUser c s, EUser c2 s2 => Nat.eqb c c2 && Nat.eqb s s2 | ESig x, ESig y => Nat.eqb x y | EGenExit, EGenExit => true',
+            '  | ETaskCancelled t k, ETaskCancelled t2 k2 => Nat.eqb t t2 && Z.eqb k k2 | ETaskClosed x, ETaskClosed y => Nat.eqb x y',
+            '  | EConcurrent l, EConcurrent l2 => (fix go (u v : list exn) : bool := match u, v with [], [] => true',
+            '       | x :: u2, y :: v2 => exn_eqb x y && go u2 v2 | _, _ => false end) l l2',
+            '  | _, _ => false end.',
+            'Definition pres_eqb (a b : presult) : bool := match a, b with PSwallow, PSwallow | PReraise, PReraise => true',
+            '  | PRaise x, PRaise y => exn_eqb x y | _, _ => false end.',
+            'Definition bad : list nat := flat_map (fun x => x) [%s].' % ';\n  '.join(
+                '(if pres_eqb (propagate_pure %s %s %s) %s then [] else [%d])' % (f, own, e, obs, i)
+                for i, (f, own, e, obs, _) in enumerate(cases)),
+            'Eval vm_compute in bad.']
+    path = ctx.write_case_file('propagate', '\n'.join(text) + '\n')
+    rc, out = ctx.run_case_files([path])[path]
+    bad = parse_nat_list(out) if rc == 0 else None
+    ctx.bump('family:propagate-correspondence', n)
+    if bad is None:
+        ctx.mismatch('propagate', None, None, None, 'case file did not evaluate: %s' % out[-600:])
+    else:
+        for i in bad:
+            ctx.mismatch('propagate', cases[i][4], cases[i][3], 'model differs', '')
+
+
 def _leaked_signal(sc, trace, probes, info):
     """of C03's monitor only: an internal signal leaving run() (a scope ending twice shows up like this)"""
     from harness import monitors
@@ -139,6 +223,7 @@ def run(ctx):
     monitors.MONITORS['C05s'] = _leaked_signal
     base_exception_children(ctx)
     nested_failures_flat_view(ctx, ctx.n(30, 400))
+    propagate_correspondence(ctx, ctx.n(300, 3000))
     machine_prop.run(ctx, FAMILIES, MONITORS + ['C05s'], extra_scenarios=double_failures(ctx.rng, ctx.n(40, 800)))
     # scopes around borrowed resources (acquiring and releasing suspend, also while a scope is being interrupted):
     # "promptly" for until-blocks is C07's rule (block left at the time its notification fires)
